@@ -73,7 +73,9 @@ where
     let inner = |input| {
         let (mut input, binary) = consumed(format)(input)?;
         let mandatory = 5; // M I L O A
-        let mut numbers: [(&[u8], usize); 9] = [(&[], 0); 9]; // M I L O A B C J F
+        // M I L O A B C J F (spans of omitted optional numbers: the empty
+        // slice after the format word, so that diagnostics can locate them)
+        let mut numbers: [(&[u8], usize); 9] = [(&input[..0], 0); 9];
         for (parsed, num) in numbers.iter_mut().enumerate() {
             (input, *num) = match preceded(space1, consumed(usize))(input) {
                 Ok(p) => p,
